@@ -362,7 +362,107 @@ def _run_once(chk):
         chk.count("hypothesis:GreedyTiled-holds" if covered and tiled else "hypothesis:GreedyTiled-fails")
 
 
+EMPTY_CAPABLE = [(" *", b"ab "), (",?", b"ab,"), ("-*", b"xy-"), ("x*", b"xa-"), ("(-|,)*", b"a-,b")]
+
+
+def empty_match_stream(chk):
+    """expressions that can match the EMPTY string (` *`, `,?`, `-*` — `\s*` and `,?` are what people write).  "Splits at its matches" then includes the
+    zero-width matches the engine reports (at the record's edges, between two characters): every one of them is a field boundary.  Regex engines
+    disagree about which empty matches exist next to a non-empty one, so python's `re` cannot be the oracle here: the specification is executed over
+    the match positions of the REAL engine (harness kind `rematch`, the find_iter the cutter itself calls) — what is decided is the cutter's use of
+    them (the splitter, the field count every bound is resolved against, the fallbacks), not the engine.  Plain splitting only: no -r / -p / -t."""
+    rng = chk.rng
+    n = 4000 if chk.tier == "quick" else 40000
+    cases, metas, M = [], [], []
+    for _ in range(n):
+        rx, alpha = rng.choice(EMPTY_CAPABLE)
+        atoms = [alpha[i:i + 1] for i in range(len(alpha))]
+        recs = [b"".join(rng.choice(atoms) for _ in range(rng.randint(0, 6))) for _ in range(rng.randint(1, 3))]
+        inp = b"\n".join(recs) + (b"\n" if rng.random() < 0.6 else b"")
+        bs = []
+        for _ in range(rng.randint(1, 3)):
+            while True:
+                l, r = pick_side(rng, 5), pick_side(rng, 5)
+                single = rng.random() < 0.5
+                if single:
+                    if l is None:
+                        continue
+                    r = l
+                if wellformed_bound(l, r):
+                    break
+            bs.append((l, r, rng.choice(["F", None, None]), single))
+        g = rng.random() < 0.3
+        sflag = rng.random() < 0.2
+        gfb = rng.choice([None, None, b"G"])
+        c = {"kind": "cut", "eng": rng.choice(["str", "auto"]), "d": b"\t", "re": rx, "b": ",".join(bound_text(*b) for b in bs), "in": inp,
+             "g": g, "s": sflag, "fb": gfb}
+        cases.append(c)
+        metas.append((recs if inp.endswith(b"\n") or recs[-1] != b"" else recs, bs, g, sflag, gfb))
+        for rec in recs:
+            M.append({"kind": "rematch", "re": rx, "in": rec})
+    lines = [case_line(c) for c in cases]
+    impl = run_impl(lines)
+    ml = [case_line(c) for c in M]
+    mi = run_impl(ml)
+    pos = {}
+    for c, i in zip(M, mi):
+        try:
+            parts = dict(p.split("=", 1) for p in i.split(" ")[1:])
+            pos[(c["re"], c["in"])] = tuple([tuple(map(int, x.split(":"))) for x in parts.get(k, "").split(",") if x] for k in ("n", "g"))
+        except ValueError:
+            pos[(c["re"], c["in"])] = None
+    for c, l, i, (recs, bs, g, sflag, gfb) in zip(cases, lines, impl, metas):
+        chk.evaluations += 1
+        chk.count("empty-capable-regex")
+        chk.nontrivial_add(l)
+        ist, iout = parse_result(i)
+        # the records as the reader delivers them: a final empty piece after the last EOL is not a record
+        rs = c["in"].split(b"\n")
+        if rs and rs[-1] == b"":
+            rs.pop()
+        out, ok = b"", True
+        for rec in rs:
+            if rec == b"":
+                out += b"" if sflag else b"\n"
+                continue
+            pp = pos.get((c["re"], rec))
+            if pp is None:
+                ok = None
+                break
+            f, p0 = [], 0
+            for a, b in pp[1 if g else 0]:
+                f.append((p0, a))
+                p0 = b
+            f.append((p0, len(rec)))
+            nf = len(f)
+            if sflag and nf == 1:
+                continue
+            piece_out = b""
+            for (l_, r_, fb, _single) in bs:
+                rr = resolve_py(l_, r_, nf)
+                if rr is None:
+                    if fb is not None:
+                        piece_out += fb.encode()
+                    elif gfb is not None:
+                        piece_out += gfb
+                    else:
+                        ok = False
+                        break
+                else:
+                    piece_out += rec[f[rr[0] - 1][0]:f[rr[1] - 1][1]]
+            if not ok:
+                break
+            out += piece_out + b"\n"
+        if ok is None:
+            continue
+        est = "ok" if ok else "fail"
+        if ist != est or (ok and iout != out):
+            chk.report_oracle("a regex that can match the empty string: the record is not split at the matches the engine reports (zero-width ones included)",
+                              {"case": l, "implementation": i, "expected": f"{est} {out.hex()}", "engine_matches": "harness kind rematch on each record"})
+
+
 def run(chk):
+    empty_match_stream(chk)
     # thorough = several independent rounds of the same generators (the PRNG keeps advancing), so that memory stays bounded
     for _round in range(1 if chk.tier == "quick" else 6):
         _run_once(chk)
